@@ -1,4 +1,5 @@
 import importlib
+import importlib.util
 import pathlib
 import sys
 import warnings
@@ -39,8 +40,14 @@ def load_model_from_file(path, register=False):
         # insert the plugin directory to sys.path so we can import it
         sys.path.insert(-1, str(path.parent))
         sys.dont_write_bytecode = True
-        module = importlib.import_module(path.stem)
-    except ModuleNotFoundError:
+        # Import this very file (and not whatever module of the same name
+        # is found first in `sys.path` or is cached in `sys.modules`).
+        spec = importlib.util.spec_from_file_location(path.stem, path)
+        if spec is None or spec.loader is None:
+            raise ImportError(f"Not a Python file: '{path}'")
+        module = importlib.util.module_from_spec(spec)
+        spec.loader.exec_module(module)
+    except (ImportError, OSError, SyntaxError):
         raise ModelImportError(f"Could not import '{path}'!")
     finally:
         # undo our path insertion
